@@ -30,7 +30,6 @@ def match_known(known, prop, violation, transformations=None):
     and over the exceptions seen in the failing step ([name, message, innermost spil frame]: the call site) + an optional
     configuration transformation the run's generated configuration must carry (C20)."""
     text = json.dumps(violation.get("detail"), sort_keys=True)
-    excs = json.dumps(violation.get("exceptions_in_step") or [], sort_keys=True)
     for k in known:
         if k.get("status", "open") != "open" or k["property"] != prop:
             continue
@@ -43,8 +42,14 @@ def match_known(known, prop, violation, transformations=None):
             continue
         if sig.get("detail_regex") and not re.search(sig["detail_regex"], text):
             continue
-        if sig.get("exception_regex") and not re.search(sig["exception_regex"], excs):
-            continue
+        if sig.get("exception_regex"):
+            # EVERY exception of the failing step must be the listed one (a step that also saw another exception is
+            # not explained by the finding), and there must be at least one
+            triples = violation.get("exceptions_in_step") or []
+            hit = [t for t in triples if re.fullmatch(sig["exception_regex"], json.dumps(t))]
+            rest = [t for t in triples if t not in hit and t[0] not in sig.get("other_exceptions_allowed", [])]
+            if not hit or rest:
+                continue
         if sig.get("transformation") and sig["transformation"] not in (transformations or []):
             continue
         return k
@@ -215,6 +220,8 @@ def cmd_check(args):
                 print("  oracle=%s seed=%s steps=%d %s" % (oracle, final["seed"], len(final["steps"]),
                                                          "" if best else "(not minimised)"))
                 print("  detail=" + json.dumps(final["violations"][0].get("detail"))[:1500])
+                if final["violations"][0].get("exceptions_in_step"):
+                    print("  exceptions_in_step=" + json.dumps(final["violations"][0]["exceptions_in_step"])[:800])
         wall = time.time() - t0
         if not args.mutant_mode:
             write_evidence(prop, profile, tier, base_seed, results, wall, n_viol, extra)
@@ -348,6 +355,8 @@ def cmd_check_c20(args):
                 print("  variant=%s %s oracle=%s seed=%s steps=%d" % (final["variant"], final.get("transformations"), oracle,
                                                                    final["seed"], len(final["steps"])))
                 print("  detail=" + json.dumps(final["violations"][0].get("detail"))[:1500])
+                if final["violations"][0].get("exceptions_in_step"):
+                    print("  exceptions_in_step=" + json.dumps(final["violations"][0]["exceptions_in_step"])[:800])
             seen.add(key)
         wall = time.time() - t0
         if not args.mutant_mode:
